@@ -9,6 +9,7 @@ helix points need the `interval` tactic (a few goals per curve).  Black boxes (s
 enter through the values they returned, their assumed behaviour is monitored.  The direct oracle states the
 property on the observable output only.
 """
+import hashlib
 import json
 import math
 import os
@@ -288,7 +289,22 @@ def make_edge(curve, v1, v2, n_points, representation):
     e1 = e1 / np.linalg.norm(e1) * L
     e2 = np.cross(d, e1)
     e2 = e2 / np.linalg.norm(e2) * L
-    bottom = cb.Face([v1, v2, v2 + e1, v1 + e1])
+    # for half of the inputs (decided by the input, so that replays agree) the block is first assembled, and its edge
+    # evaluated, with the second vertex at ANOTHER point of the curve; the vertex is then moved along the curve to v2 - what
+    # an optimizer with a curve clamp does before the mesh is written.  The edge is a function of where its vertices are now.
+    v2_first = v2
+    if int(hashlib.sha1(json.dumps([fl(v1), fl(v2), n_points, representation]).encode()).hexdigest()[:4], 16) % 2 == 0:
+        try:
+            t1, t2 = curve.get_closest_param(v1), curve.get_closest_param(v2)
+            tm = t1 + 0.6 * (t2 - t1)
+            if type(curve).__name__ == "DiscreteCurve":
+                tm = int(round(tm))
+            cand = np.array(curve.get_point(tm), dtype=float)
+            if np.linalg.norm(cand - v1) > 0.05 * L and np.linalg.norm(cand - v2) > 0.05 * L:
+                v2_first = cand
+        except Exception:  # noqa: BLE001
+            v2_first = v2
+    bottom = cb.Face([v1, v2_first, v2_first + e1, v1 + e1])
     top = cb.Face([v1 + e2, v2 + e2, v2 + e1 + e2, v1 + e1 + e2])
     loft = cb.Loft(bottom, top)
     loft.bottom_face.add_edge(0, cb.OnCurve(curve, n_points=n_points, representation=representation))
@@ -301,6 +317,13 @@ def make_edge(curve, v1, v2, n_points, representation):
     if len(es) != 1:
         raise RuntimeError("expected exactly one curve edge, got %d" % len(es))
     e = es[0]
+    if v2_first is not v2:
+        for name in ("description", "length", "param_start", "param_end", "is_valid"):
+            try:
+                getattr(e, name)
+            except Exception:  # noqa: BLE001
+                pass
+        e.vertex_2.move_to(v2)
     desc = e.description
     m = re.match(r"\s*(\w+)\s+(\d+)\s+(\d+)\s*\((.*)\)\s*$", desc, flags=re.S)
     if not m:
